@@ -289,7 +289,9 @@ def handle (line : String) : String :=
     | some i, some f =>
       if f ≠ 0 ∧ f ≠ 2 then "NULL" else (QueueP.globalQueue i (f = 2)).getD "NULL"
     | _, _ => "bad-op"
-  | "SQ" :: parents :: _conc :: vals :: q :: k :: _path :: _ =>
+  | "SQ" :: parents :: _conc :: vals :: q :: k :: path :: _ =>
+    -- path 8: the item is submitted (dispatch_apply, one iteration) to a global queue: its chain is that root queue alone
+    if path = "8" then "0" else
     toString (QueueP.getSpecific (parseParents parents) (parseVals vals) q.toNat! k.toNat!)
   | "SA" :: parents :: _conc :: q :: a :: neg :: path :: rest =>
     let ctx : Option Nat := match rest with | [c] => c.toNat? | _ => none
